@@ -201,6 +201,16 @@ def run_sequence(names0, ops, counters, replay=False):
             v = check_labels(t, counters, wit)
             if v:
                 return v
+        elif op[0] == "bad":
+            try:
+                apply_mutation(t, op[1:])
+                counters["failing_updates_that_did_not_fail"] = counters.get("failing_updates_that_did_not_fail", 0) + 1
+            except Exception:
+                counters["failing_updates"] = counters.get("failing_updates", 0) + 1
+            if warm:
+                pending = True
+            if len(t._data["x"]) != len(t._data["name"]):
+                return dict(wit, what="C07 columns out of step after a failing %s" % op[1])
         else:
             try:
                 apply_mutation(t, op)
@@ -239,8 +249,22 @@ def gen_sequence(rng):
             ops.append(["labels"])
         else:
             k = rng.choice(["setcol", "setattr", "cellpos", "cellname", "celltuple", "cellslice", "celllist",
-                            "othercell", "newcol", "delcol", "pop", "append", "update"])
-            if k in ("setcol", "setattr"):
+                            "othercell", "newcol", "delcol", "pop", "append", "update", "bad"])
+            if k == "bad":
+                # an update that FAILS (absent row, position out of range, wrong number of values): whatever it left
+                # behind, later lookups must follow the column as it is now
+                kind = rng.choice(["cellname", "cellpos", "cellslice", "celltuple"])
+                v = rng.choice(alphabet + ["new"])
+                if kind == "cellname":
+                    ops.append(["bad", "cellname", rng.choice(["zz", rng.choice(alphabet) + "::%d" % (n + 3), "zz::-1"]), v])
+                elif kind == "cellpos":
+                    ops.append(["bad", "cellpos", n + rng.randrange(1, 4), v])
+                elif kind == "celltuple":
+                    ops.append(["bad", "celltuple", [rng.choice(alphabet), n + 2], v])
+                else:
+                    a = rng.randrange(0, n)
+                    ops.append(["bad", "cellslice", a, n, [v] * (n - a + 2)])
+            elif k in ("setcol", "setattr"):
                 names = [rng.choice(alphabet) for _ in range(n)]
                 ops.append([k, list(names)])
             elif k == "cellpos":
